@@ -286,6 +286,28 @@ theorem sem_no_residue (c : Cfg) (hc : Proved c) (rw : Nat) (hrw : 1 ≤ rw) (s 
   | false => rfl
   | true => exact absurd hh ((sem_entry_iff_held c hc rw hrw s hr k).1 hp)
 
+/-- however many keys are in use: over any finite set of keys the container holds exactly as many entries as
+    there are keys somebody is inside of (no entry outlives its last holder, at any population) -/
+theorem sem_entry_count (c : Cfg) (hc : Proved c) (rw : Nat) (hrw : 1 ≤ rw) (s : State)
+    (hr : (M c rw).Reach s) (ks : List Key) :
+    (ks.filter (fun k => (s k).present)).length = (ks.filter (fun k => !(s k).holders.isEmpty)).length := by
+  congr 1
+  apply List.filter_congr
+  intro k _
+  have h := sem_entry_iff_held c hc rw hrw s hr k
+  cases hp : (s k).present with
+  | true =>
+    have := h.1 hp
+    cases hh : (s k).holders with
+    | nil => exact absurd hh this
+    | cons _ _ => rfl
+  | false =>
+    cases hh : (s k).holders with
+    | nil => rfl
+    | cons a l =>
+      have : (s k).present = true := h.2 (by rw [hh]; simp)
+      rw [hp] at this; cases this
+
 /-- the "doomed" branch of `Weighted.acquire` (`n > size`) is never taken -/
 theorem sem_not_doomed (rw : Nat) (hrw : 1 ≤ rw) (wr : Bool) : ¬ weight rw wr > rw := by
   have := (weight_bounds rw hrw wr).2; omega
@@ -328,6 +350,14 @@ theorem sem_wide (c : Cfg) (hc : Proved c) (rw : Nat) (hrw : 1 ≤ rw) (idx : Ke
   by_cases hi : i = idx k
   · subst hi; exact sem_no_residue c hc rw hrw _ hsr k hh hw
   · rw [hother i k hi]; rfl
+
+/-- the sharded maps as they are (remap routes only some key kinds; a call on any other key panics before any lock
+    is taken, i.e. is no step): every run is a run of `MW`, so `sem_wide` applies, and a key remap cannot route
+    is unknown to every shard for ever — nobody is ever inside it, nothing is stored for it -/
+theorem sem_wide_unroutable (c : Cfg) (rw : Nat) (idx : Key → Nat) (routable : Key → Bool) (ws : WState)
+    (hr : (MWR c rw idx routable).Reach ws) :
+    (MW c rw idx).Reach ws ∧ ∀ k, routable k = false → ∀ i, ws i k = KS.init :=
+  ⟨wideR_reach c rw idx routable ws hr, wideR_unroutable_untouched c rw idx routable ws hr⟩
 
 /-! ### today's guard: the property is false (concrete runs; the same scripts are replayed on the Go code) -/
 
@@ -402,6 +432,11 @@ example : ((MG ⟨.emptyAndIdle⟩ 3).run ginit [.acquire 1 0 false, .acquire 2 
 example : ((S 3).run (fun _ => RW.init) [.acquire 1 0 false, .acquire 2 0 false, .acquire 3 0 true,
       .acquire 4 0 false, .cancel 3 0]).map
     (fun sp => ((sp 0).inside, (sp 0).queue)) = some ([(1, false), (2, false), (4, false)], []) := by decide
+
+/-- partial routing: odd keys are not routable — the call on key 5 is refused, the run stops there -/
+example : ((MWR ⟨.emptyAndIdle⟩ 2 (· % 3) (· % 2 == 0)).run winit [.acquire 1 4 true, .acquire 3 5 false]).isNone = true ∧
+    ((MWR ⟨.emptyAndIdle⟩ 2 (· % 3) (· % 2 == 0)).run winit [.acquire 1 4 true]).map (fun ws => (ws 1 4).holders) =
+      some [(1, 2)] := by decide
 
 /-- a sharded run (3 shards by residue): key 4 lives in shard 1 only -/
 example : ((MW ⟨.emptyAndIdle⟩ 2 (· % 3)).run winit [.acquire 1 4 true, .acquire 2 4 false, .acquire 3 5 false]).map
